@@ -10,6 +10,7 @@
 //!   iterps   <nvars> <slots> <ps> <pe> <stop>              | <st> <log> <st> <log> <eq|ne|NA>
 //!   iterops  <nvars> <slots> <ps> <pe> <stop>              | <st> <log> <st> <log> <eq|ne|NA>
 //!   recycle  <nvars> <slots> <A|H|E> <vars|*> <p> <hints>  | <last_p> <items> <unfilled> <eq|ne|NA>
+//!   counts   <nbonds> <+b,-b,… counter events so far>      | bc:<bond_counters> gc:<get_count(0..len+2)>
 //! (`recycle`: args prepared at p and handed back through get_empty_args(SubvarAccess::Args) + fill_args_at_p again;
 //! the histories also MUTATE with such recycled args; after every mutation every getter is compared with a scan)
 //! The oracle column is computed here from `get_pth(0..cutoff)` only (naive scans), never from the model.
@@ -50,6 +51,7 @@ fn bump(st: &mut Stats, k: &str) {
 
 #[derive(Clone, Debug)]
 struct SOp {
+    bond: usize,
     vars: Vec<usize>,
     ins: Vec<bool>,
     outs: Vec<bool>,
@@ -60,6 +62,7 @@ fn scan(c: &FastOps) -> Vec<Option<SOp>> {
     (0..c.get_cutoff())
         .map(|p| {
             c.get_pth(p).map(|o| SOp {
+                bond: o.get_bond(),
                 vars: o.get_vars().to_vec(),
                 ins: o.get_inputs().to_vec(),
                 outs: o.get_outputs().to_vec(),
@@ -504,7 +507,7 @@ fn check_against_scan(m: &FastOps) -> Result<(), String> {
             return Err(format!("backwards walk on var {}: {:?} vs scan {:?}", v, walk, on_v));
         }
     }
-    for b in 0..8 {
+    for b in 0..16 {
         let want = ps.iter().filter(|p| m.get_pth(**p).unwrap().get_bond() == b).count();
         if m.get_count(b) != want {
             return Err(format!("get_count({}) = {} vs scan {}", b, m.get_count(b), want));
@@ -1102,15 +1105,56 @@ fn case_iter_ops(g: &mut SplitMix64, h: &Hist, c: &mut FastOps, st: &mut Stats) 
     emit(s.iter().any(|x| x.is_some()), &input, &format!("{} {} {}", t1, t2, flag), Some(verdict));
 }
 
+/// counter events of one sweep, in slot order: `-b` for the op that left a slot, `+b` for the one that entered it
+fn diff_events(a: &[Option<SOp>], b: &[Option<SOp>], ev: &mut Vec<String>) {
+    for p in 0..b.len() {
+        let old = if p < a.len() { a[p].as_ref() } else { None };
+        let new = b[p].as_ref();
+        if old.map(|o| &o.shown) != new.map(|o| &o.shown) {
+            if let Some(o) = old {
+                ev.push(format!("-{}", o.bond));
+            }
+            if let Some(o) = new {
+                ev.push(format!("+{}", o.bond));
+            }
+        }
+    }
+}
+
+/// the per-bond counter table (serde snapshot) and `get_count` up to two bonds beyond it, after the history so far
+fn case_counts(h: &Hist, c: &FastOps, events: &[String], st: &mut Stats) {
+    let nb = h.nb.expect("counts lines only for containers with counters");
+    let snap = serde_json::to_value(c).expect("serde snapshot");
+    let bc: Vec<usize> = snap["bond_counters"].as_array().expect("bond_counters").iter().map(|x| x.as_u64().expect("counter") as usize).collect();
+    let s = scan(c);
+    let maxb = s.iter().flatten().map(|o| o.bond + 1).max().unwrap_or(0).max(bc.len());
+    let gc: Vec<usize> = (0..bc.len() + 2).map(|b| c.get_count(b)).collect();
+    let mut verdict = Ok(());
+    for b in 0..maxb + 2 {
+        let want = s.iter().flatten().filter(|o| o.bond == b).count();
+        if c.get_count(b) != want {
+            verdict = Err(format!("get_count({}) = {} but {} stored operators have that bond (table length {})", b, c.get_count(b), want, bc.len()));
+            break;
+        }
+    }
+    if bc.len() > nb {
+        bump(st, "counts_table_grown");
+    }
+    let input = format!("counts {} {}", nb, if events.is_empty() { "-".to_string() } else { events.join(",") });
+    emit(s.iter().any(|x| x.is_some()), &input, &format!("bc:{} gc:{}", list(&bc), list(&gc)), Some(verdict));
+}
+
 fn run_history(g: &mut SplitMix64, h: &Hist, st: &mut Stats) -> usize {
     let mut c = match h.nb {
         None => FastOps::new_from_nvars(h.nvars),
         Some(nb) => FastOps::new_from_nvars_and_nbonds(h.nvars, Some(nb)),
     };
     let mut lines = 0;
+    let mut events: Vec<String> = vec![];
     for step in 0..h.len {
         // a public mutation inside its valid domain must not panic (the sub-sweeps go through the hint fill)
         let before = show_slots(&c);
+        let s0 = scan(&c);
         match catch(|| mutate(g, h, &mut c, st)) {
             Err(e) => {
                 emit(true, &format!("histpanic {}", step), "panic", Some(Err(format!("a valid public mutation panicked: {} (contents before: {})", e, before))));
@@ -1130,6 +1174,8 @@ fn run_history(g: &mut SplitMix64, h: &Hist, st: &mut Stats) -> usize {
                 return lines + 1;
             }
         }
+        let s1 = scan(&c);
+        diff_events(&s0, &s1, &mut events);
         if c.get_cutoff() == 0 {
             continue;
         }
@@ -1139,6 +1185,11 @@ fn run_history(g: &mut SplitMix64, h: &Hist, st: &mut Stats) -> usize {
         if consistent {
             make_consistent(g, &mut c, &state);
             bump(st, "containers_made_consistent");
+            diff_events(&s1, &scan(&c), &mut events);
+        }
+        if h.nb.is_some() {
+            case_counts(h, &c, &events, st);
+            lines += 1;
         }
         for _ in 0..2 {
             case_fill(g, h, &mut c, st);
@@ -1169,7 +1220,8 @@ fn main() {
         let h = Hist {
             nvars,
             nb,
-            bondlim: nb.unwrap_or(6),
+            // a third of the containers with counters also store operators of bonds BEYOND the table (bonds added later)
+            bondlim: nb.unwrap_or(6) + if nb.is_some() && g.chance(1, 3) { 4 } else { 0 },
             cap: if a.thorough && g.chance(1, 4) { 60 } else { 6 + g.below(20) as usize },
             len: 10 + g.below(if a.thorough { 120 } else { 40 }) as usize,
         };
